@@ -17,6 +17,7 @@ import (
 	"rscheck/cfgq"
 	"rscheck/core"
 	"rscheck/driver"
+	"rscheck/flow"
 	"rscheck/grammar"
 	"rscheck/pat"
 	"rscheck/rules/arith"
@@ -632,16 +633,29 @@ func r6(c *core.Ctx) {
 		sum := g.Points(g.HasCall(func(call *ast.CallExpr, _ types.Object) bool {
 			return pat.Expr("_l.crc.Sum64()").Match(info, call, nil) != nil
 		}))
-		rd := g.Points(g.HasCall(func(call *ast.CallExpr, callee types.Object) bool {
-			f, _ := callee.(*types.Func)
-			return f != nil && core.IsFunc(f, pkg, "rdbReader", "readUint64")
-		}))
-		if len(sum) != 1 || len(rd) != 1 {
-			c.Undecidedf("R6.crc", "Footer/shape", fn.Decl.Pos(), "Footer must contain one crc.Sum64() and one readUint64()")
+		// every read of the stream reachable from Footer (through helpers)
+		fe := flow.New(c.Program)
+		spec := ReaderSpec(true)
+		isRead := func(f *types.Func) bool {
+			n := core.FuncName(f)
+			_, a := spec.Prims[n]
+			_, b := spec.BufPrims[n]
+			return a || b
+		}
+		fe.Opaque = isRead
+		reads := fe.Calls(g, fn.Decl.Body, isRead)
+		if len(sum) != 1 || len(reads) == 0 {
+			c.Undecidedf("R6.crc", "Footer/shape", fn.Decl.Pos(), "Footer must sample l.crc.Sum64() once and read the trailer (found %d samples, %d reads)", len(sum), len(reads))
 		} else {
 			sn := sum[0].Node()
-			ok, w := g.Dominated(rd[0], func(n ast.Node) bool { return n == sn })
-			c.Check("R6.crc", "Footer/sum-before-trailer", rd[0].Node().Pos(), ok, "the digest is taken before the 8 trailer bytes are read (they pass through the same tee and would otherwise be part of the sum)", w...)
+			for _, rd := range reads {
+				at := rd.At
+				if len(rd.Up) > 0 {
+					at = rd.Up[len(rd.Up)-1].At
+				}
+				ok, w := g.Dominated(at, func(n ast.Node) bool { return n == sn })
+				c.Check("R6.crc", "Footer/sum-before-trailer", rd.Call.Pos(), ok, "the digest is taken before the 8 trailer bytes are read (they pass through the same tee and would otherwise be part of the sum)", w...)
+			}
 			// (the comparison itself is checked by X1.footer in rules/all)
 		}
 	}
